@@ -311,7 +311,8 @@ def mk_stubs():
         if f is False: e.exists[strid(s)] = True
         else: e.exists[strid(s)] = z3.Or(z3.Not(f), exists_var(ex, s))
         if f is False: return fid
-        return z3.If(f, z3.IntVal(NEG1_64), z3.IntVal(fid))
+        # handles stay concrete: fork on the outcome right here
+        return NEG1_64 if ex.decide(f) else fid
     S['@H5Fcreate'] = H5Fcreate
     def dim0(ex, p):
         if not isinstance(p, Ptr) or p.region is None: return None
@@ -332,7 +333,7 @@ def mk_stubs():
                           extent=sp.get('dims0'), max0=sp.get('max0'), ncol=sp.get('dims1'))
         ev(ex, 'H5Dcreate2', idv(loc), s, did, sp.get('dims0'), sp.get('max0'), ty, dcpl, f)
         if f is False: return did
-        return z3.If(f, z3.IntVal(NEG1_64), z3.IntVal(did))
+        return NEG1_64 if ex.decide(f) else did
     S['@H5Dcreate2'] = H5Dcreate2
     def H5Dget_space(ex, d):
         sid = env(ex).new('space', of=idv(d), sel=None, open=True); ev(ex, 'H5Dget_space', idv(d), sid); return sid
